@@ -59,8 +59,11 @@ def cases(draw):
         c = {"$metaschema-of-draft": draw(st.sampled_from(impl.DRAFTS))}
     if isinstance(c, dict) and src != "metaschema" and draw(st.integers(0, 3)) == 0:
         c = dict(c)
-        c["$schema"] = {3: "http://json-schema.org/draft-03/schema#", 4: "http://json-schema.org/draft-04/schema#",
-                        6: "http://json-schema.org/draft-06/schema#", 7: "http://json-schema.org/draft-07/schema#"}[d]
+        ids = {3: "http://json-schema.org/draft-03/schema#", 4: "http://json-schema.org/draft-04/schema#",
+               6: "http://json-schema.org/draft-06/schema#", 7: "http://json-schema.org/draft-07/schema#"}
+        # check_schema of class X applies X's metaschema whatever the candidate says about itself
+        c["$schema"] = draw(st.sampled_from([ids[d], ids[d], ids[3], ids[4], ids[6], ids[7], ids[4][:-1], ids[7][:-1],
+                                             "http://example.com/unknown#"]))
     xs = draw(st.lists(c03.hostile, min_size=2, max_size=2))
     return {"draft": d, "candidate": c, "source": src, "instances": xs}
 
@@ -159,6 +162,7 @@ class C11(Prop):
                     wraps = [{k: v}, {"properties": {"p": {k: v}}}, {"items": [{k: v}]}]
                     if d >= 4:
                         wraps.append({"allOf": [{k: v}], "$schema": "http://json-schema.org/draft-0%d/schema#" % d})
+                        wraps.append({k: v, "$schema": "http://json-schema.org/draft-0%d/schema#" % (7 if d == 4 else 4)})
                     else:
                         wraps.append({"extends": {k: v}})
                     for c in wraps:
